@@ -765,6 +765,8 @@ class Converter:
             # Edge case: no index specified. Eg. A[:, :]
             return self._emit1([target], "Identity", [var_name])
 
+        # Axes removed from the result by the Squeeze below (if any).
+        removed_axes: list[int] = []
         if sliced_indices or len(scalar_indices) > 1:
             # We emit a Slice operation if we have any indices like 1:5:2 or if the number of
             # scalar indices (like 2) is more than 1.
@@ -817,6 +819,7 @@ class Converter:
                 steps_value = steps[0]
 
             if squeezed_axes:
+                removed_axes = list(squeezed_axes)
                 sliced_name = self._generate_unique_name(f"{var_name}_sliced")
                 sliced_value = self._emit(
                     [sliced_name],
@@ -841,6 +844,9 @@ class Converter:
         else:
             result = var
         non_scalar_indices.extend(scalar_indices)
+        # Gather along the last axis first: a Gather with a rank-0 index removes its axis (and one
+        # with a rank-n index adds n-1 axes), which would shift the axes of the Gathers after it.
+        non_scalar_indices.sort(key=lambda axis_and_expr: axis_and_expr[0], reverse=True)
         if non_scalar_indices:
             last_axis, _ = non_scalar_indices[-1]
         else:
@@ -848,7 +854,9 @@ class Converter:
             last_axis = None
         for axis, index_expr in non_scalar_indices:
             index_value = self._translate_expr(index_expr)
-            axis_attr = ir.AttrInt64("axis", axis)
+            # Axes squeezed out above no longer exist in `result`.
+            gather_axis = axis - sum(1 for removed in removed_axes if removed < axis)
+            axis_attr = ir.AttrInt64("axis", gather_axis)
             # use Gather to perform indexing
             # Assign gathered value to either temporary or final target
             if axis != last_axis:  # use temporary to store result of Gather
